@@ -163,6 +163,10 @@ def regenerate(ctx=None):
         regenerate_programs()
     except Exception:
         pass
+    try:    # C26/C21 translation validation: the fast-group programs (separate file: independent rebuilds)
+        regenerate_programs_groups()
+    except Exception:
+        pass
     return txt
 
 
@@ -474,6 +478,63 @@ def regenerate_programs():
     f = d / "Programs.lean"
     if not f.exists() or f.read_text() != txt:
         tmp = d / "Programs.lean.tmp"
+        tmp.write_text(txt)
+        tmp.replace(f)
+    return txt
+
+
+def _lean_prog(name, P, extra):
+    """one generated program: instruction list (the fake map fd canonicalised to 40) and its geometry as Lean defs"""
+    from . import interp
+
+    def imm(i):
+        pseudo = interp.opval(i.opcode) == 0x18 and int(i.src) == 1 and int(i.imm) == P["var_fd"]
+        return 40 if pseudo else int(i.imm)
+    rows = [f"  \u27e8{interp.opval(i.opcode)}, {int(i.dst)}, {int(i.src)}, {int(i.off)}, {imm(i)}\u27e9" for i in P["insns"]]
+    pk = P["sg"].packet
+    writers = [(s + 14, e + 14 - 2, int(c.value), int(pk.counters[e - 2])) for s, e, c in pk.on_the_fly]
+    out = [f"def {name} : List Insn := [", ",\n".join(rows) + "]",
+           f"def {name}_varFd : Int := 40", f"def {name}_varSize : Nat := {int(P['var_size'])}",
+           f"def {name}_offWkcErrors : Nat := {int(P['off_wkc_errors'])}", f"def {name}_size : Nat := {int(pk.size)}",
+           f"def {name}_writers : List (Nat \u00d7 Nat \u00d7 Nat \u00d7 Nat) := [" + ", ".join(str(w) for w in writers) + "]"]
+    out += [f"def {name}_{k} : Nat := {int(v)}" for k, v in extra.items()]
+    return out
+
+
+FAST_LAYOUTS = {"fastA": [[1, 5, 4, 1]], "fastB": [[0, 4, 2, 1], [1, 5, 4, 1], [1, 11, 6, 3]],
+                "fastC": [[1, 8, 2, 2], [1, 5, 8, 1]]}
+
+
+def render_programs_groups():
+    """C26/C21 translation validation: the real fast-group programs (Motor on the EL7041 layout; bare groups of three
+    packet layouts) as Lean instruction lists with their geometry; a program that cannot be assembled becomes `[]`"""
+    head = ["/- REGENERATED from /repo on every run by harness/vh/extract.py (render_programs_groups); do not edit. -/",
+            "import Ebv.Model.Ebpf", "namespace Ebv.Programs", "open Ebv.Ebpf"]
+    from . import progs
+    body = []
+    try:
+        P = progs.motor_group()
+        extra = {"off_" + k: v for k, v in P["vars"].items()}
+        extra.update({"inBase": P["in_base"], "outBase": P["out_base"]})
+        body += _lean_prog("motorGroup", P, extra)
+    except Exception:
+        body += ["def motorGroup : List Insn := []"]
+    for name, lay in FAST_LAYOUTS.items():
+        try:
+            body += _lean_prog(name, progs.bare_fast_group(lay), {})
+        except Exception:
+            body += [f"def {name} : List Insn := []"]
+    return "\n".join(head + body + ["end Ebv.Programs"]) + "\n"
+
+
+def regenerate_programs_groups():
+    """write lean/Ebv/Generated/ProgramsGroups.lean only when its content changes"""
+    txt = render_programs_groups()
+    d = core.LEAN / "Ebv" / "Generated"
+    d.mkdir(parents=True, exist_ok=True)
+    f = d / "ProgramsGroups.lean"
+    if not f.exists() or f.read_text() != txt:
+        tmp = d / "ProgramsGroups.lean.tmp"
         tmp.write_text(txt)
         tmp.replace(f)
     return txt
